@@ -107,7 +107,7 @@ PROPERTIES = {
         "expected_probes": ["shared_cache_phase", "shared_dataset_phase", "concurrent_dataset_init_phase", "ro_guard"],
         "tiers": {
             "quick": [B("tsan-small-a", "tsan", "small-a", 1500, 40), B("plain-small-a", "plain", "small-a", 3000, 20), B("plain-small-b", "plain", "small-b", 1000, 8),
-                      B("preempt-small-a", "plain", "small-a", 3000, 25, mode="preempt"), B("tsan-shipped", "tsan", "shipped", 8, 30, workers=8, gate=2)],
+                      B("preempt-small-a", "plain", "small-a", 3000, 25, mode="preempt"), B("tsan-shipped", "tsan", "shipped", 4, 30, workers=4, gate=1)],
             "thorough": [B("tsan-small-a", "tsan", "small-a", 40000, 420), B("tsan-small-b", "tsan", "small-b", 15000, 180), B("plain-small-a", "plain", "small-a", 150000, 300),
                          B("plain-small-b", "plain", "small-b", 50000, 120), B("preempt-small-a", "plain", "small-a", 100000, 420, mode="preempt"), B("preempt-small-b", "plain", "small-b", 30000, 120, mode="preempt"),
                          B("preempt-shipped", "plain", "shipped", 300, 240, workers=8, mode="preempt", gate=4), B("tsan-shipped", "tsan", "shipped", 300, 420, workers=8, gate=4), B("plain-shipped", "plain", "shipped", 300, 240, workers=8, gate=4), B("full-dataset-shipped-plain", "plain", "shipped", 2, 1200, workers=2, mode="fullshipped", gate=0, hang_s=3600),
